@@ -37,7 +37,9 @@ BVARS = ["<cond>c", "flag", "<cond>", "<cond>_0"]       # (<cond> alone is what 
 ARRS = ["arr", "<state>vec"]
 MATS = ["mat"]
 FUNCS = ["f", "<func>f", "<func>rhs_2", "<builtin>norm_2"]
-NUMS = [0, 1, 2, 3, 7, -1, -2, 0.5, 2.0, -1.5, 1e-12, 1.5e300, 100, 0.1, 3.25, 1e22]
+NUMS = [0, 1, 2, 3, 7, -1, -2, 0.5, 2.0, -1.5, 1e-12, 1.5e300, 100, 0.1, 3.25, 1e22,
+        # floats that print in exponent notation with a mantissa that is not round in binary (every digit counts)
+        1.1e-05, 3.3e-07, 1.7e-09, 8.1e-11, 1e+23, 6.02214076e+23, 1.2345678901234567e-05, 5e-324, 1.7976931348623157e+308]
 CMPS = ["<", "<=", ">", ">=", "==", "!="]
 
 
